@@ -43,6 +43,7 @@ type GenParams struct {
 	Keys                   []string // explicit key pool (overrides DenseKeys/NKeys)
 	HostileVals            bool     // values with hostile lengths / contents
 	BytelessPct            int      // percentage of batches that only touch the empty key with no value bytes (Del(""), Set("",""), Merge("",""))
+	RefusePct              int      // (needs Merge) percentage of batches followed by a phase in which the merge operator refuses to merge (FullMerge returns false) over some merger cycles
 }
 
 // GenConfig draws a configuration for the steered engine.
@@ -733,6 +734,38 @@ func GenProgram(r *Rng, prop string, cfg Config, gp GenParams) *Program {
 				add(Step{K: "check"})
 				fresh = false
 			}
+		}
+		if gp.RefusePct > 0 && gp.Merge && cfg.MergeOp && i > 0 && r.Intn(100) < gp.RefusePct {
+			// The application's merge operator refuses to merge for a few
+			// merger cycles: an older version of k sits in the dirty mid (or
+			// further down), a poisoned operand on k arrives, the cycles fail
+			// (OnError) after having ingested the dirty top; sometimes with a
+			// persister round parked in mid-flight, so that the failing cycle
+			// holds a reference on the dirty base.  Afterwards the operator
+			// relents and nothing may be lost, doubled or leaked.
+			k := []byte(g.keys[r.Intn(len(g.keys))])
+			add(Step{K: "batch", B: &model.Batch{Ops: []model.Op{{Kind: 'S', Key: k, Val: g.uniqueVal()}}}})
+			add(Step{K: "merge", A: "plain"})
+			parked := false
+			if lower && !gp.NoPersistSteps && r.Chance(1, 2) {
+				pp := "persister.updated"
+				if store {
+					pp = persisterParks[r.Intn(len(persisterParks))]
+				}
+				add(Step{K: "persist", P: pp})
+				parked = true
+			}
+			if r.Chance(1, 3) {
+				add(Step{K: "batch", B: g.batch()})
+			}
+			add(Step{K: "refuse", B: &model.Batch{Ops: []model.Op{{Kind: 'M', Key: k, Val: MergePoison}}}, N: 1 + r.Intn(3)})
+			add(Step{K: "check"})
+			if parked && r.Chance(2, 3) {
+				add(Step{K: "resume", A: "persister"})
+			}
+			add(Step{K: "merge", A: mergeKind()})
+			add(Step{K: "check"})
+			fresh = false
 		}
 		if gp.PersistAfterBatchPct > 0 && lower && r.Intn(100) < gp.PersistAfterBatchPct {
 			add(Step{K: "merge", A: "plain"})
